@@ -190,7 +190,7 @@ theorem Color.parse_name {v w c} (h : Color.parse v w = .ok c) : c.name = strip 
   Color.parseNorm_name h
 
 /-- `Color.parse` only looks at the lower-cased text. -/
-theorem Color.parse_lower (v : Variant) (w : List Char) : Color.parse v (lower w) = Color.parse v w := by
+theorem Color.parse_lower (v : StyleVariant) (w : List Char) : Color.parse v (lower w) = Color.parse v w := by
   unfold Color.parse
   rw [lower_idem]
 
@@ -206,7 +206,7 @@ theorem keywords_not_colors_tbl :
       && strip (lower k) != cl! "default") = true := by
   decide +kernel
 
-theorem keyword_not_color (v : Variant) {k : List Char} (hk : k ∈ styleKeywords) :
+theorem keyword_not_color (v : StyleVariant) {k : List Char} (hk : k ∈ styleKeywords) :
     Color.parse v k = .error .colorParse := by
   have := List.all_eq_true.mp keywords_not_colors_tbl k hk
   simp only [Bool.and_eq_true, bne_iff_ne, ne_eq, Option.isNone_iff_eq_none] at this
@@ -214,7 +214,7 @@ theorem keyword_not_color (v : Variant) {k : List Char} (hk : k ∈ styleKeyword
   unfold Color.parse Color.parseNorm
   simp [h1, h2, h3]
 
-theorem Color.parseNorm_ok_indep {v v' : Variant} {n : List Char} {c : Color}
+theorem Color.parseNorm_ok_indep {v v' : StyleVariant} {n : List Char} {c : Color}
     (h : Color.parseNorm v n = .ok c) : Color.parseNorm v' n = .ok c := by
   unfold Color.parseNorm at h ⊢
   repeat' split at h
@@ -223,7 +223,7 @@ theorem Color.parseNorm_ok_indep {v v' : Variant} {n : List Char} {c : Color}
     | (simp_all; done)
 
 /-- A successful `Color.parse` does not depend on the code variant. -/
-theorem Color.parse_ok_indep {v v' : Variant} {w : List Char} {c : Color}
+theorem Color.parse_ok_indep {v v' : StyleVariant} {w : List Char} {c : Color}
     (h : Color.parse v w = .ok c) : Color.parse v' w = .ok c :=
   Color.parseNorm_ok_indep h
 
